@@ -1,5 +1,6 @@
 import NA.Model.AsaEngine
 import NA.Spec.AsaDev
+import NA.Proofs.F1Sem
 import NA.Core.IOUtil
 /-!
 Driver `nadrv-c01`: the ASA diff engine on fragment F1 (NA/Model/AsaEngine.lean) and the strict
@@ -113,6 +114,10 @@ def answer (line : String) : String :=
     "\t".intercalate [
       "rej=0",
       "valid=" ++ (if validA && validG then "1" else if validA then "G" else "A"),
+      -- static hypotheses of the convergence theorems (NA.F1.WF, RefsClosedA, RefsClosedB)
+      "wf=" ++ (if wfB e && refsClosedA e && refsClosedB e then "1" else "0"),
+      -- hypothesis of the end-to-end theorem `asa_F1_converges_partial` (class K1)
+      "k1=" ++ (if k1Check a b sc then "1" else "0"),
       "script=" ++ "|".intercalate lines,
       "hits=" ++ countHits r.hits,
       "exec=" ++ exec,
